@@ -13,7 +13,7 @@
    holds whatever they return, except C15_histogram_mass which names its hypothesis.
    [quad p] = (count, missing, minimum, maximum) of p. *)
 From Coq Require Import List ZArith NArith Bool.
-From Orso Require Import Gen.C15_Profiler Model.C15 Proofs.C15 Proofs.C15_Text Proofs.C15_Inst Proofs.C15_Session.
+From Orso Require Import Gen.C15_Profiler Model.C15 Proofs.C15 Proofs.C15_Text Proofs.C15_Inst Proofs.C15_Session Proofs.C15_Cells.
 Import ListNotations.
 Open Scope Z_scope.
 
@@ -332,6 +332,85 @@ Example C15_example_session :
   map (option_map quad) (frun frame (firstn 4 c) (session_ops 4 [4%nat] (skipn 4 c))) =
   [Some (4, 1, Some 3, Some 5); Some (7, 2, Some (-7), Some 11)].
 Proof. vm_compute. split; [split; repeat constructor|reflexivity]. Qed.
+
+(* ---------- cells as Python holds them (round 4) ----------
+   A cell is (raw, shift, form); its value is floor((raw - shift) / unit).  Instants: raw = the
+   wall-clock reading in microseconds, shift = the UTC offset of the datetime in microseconds (0 when
+   naive), unit = 10^6.  Numbers: shift = 0, unit = 1, form 1 = negative zero.  [profile_x] is
+   NumericProfiler / DateProfiler on such cells, with a sketch that - like set(data) - keeps one
+   element per value and hashes the text of that element ([hashF] sees value AND form). *)
+
+(* the value of a cell: the UTC instant, floored to the unit; the offset is subtracted, not dropped *)
+Theorem C15_cell_value :
+  forall unit raw shift form, 0 < unit ->
+  xvalue unit (raw, shift, form) * unit <= raw - shift < (xvalue unit (raw, shift, form) + 1) * unit /\
+  xvalue unit (raw, shift, form) = xvalue unit (raw - shift, 0, 0%N).
+Proof. intros unit raw shift form H. split; [now apply xvalue_floor|apply xvalue_offset]. Qed.
+Print Assumptions C15_cell_value.
+
+(* count, missing, extremes, frequent values, order, transitions and histogram of a column of cells
+   are those of the column of their values, so every theorem above applies to them; a listed
+   frequent value is (value, form of its first occurrence) *)
+Theorem C15_cells_profile_of_values :
+  forall E scale unit hashF (np_hist : list Z -> list (E * Z)) wo c,
+  let px := profile_x scale unit hashF np_hist wo c in
+  let pv := profile_num scale (fun _ => 0%N) np_hist wo (xvalues unit c) in
+  p_count px = p_count pv /\ p_missing px = p_missing pv /\
+  p_minimum px = p_minimum pv /\ p_maximum px = p_maximum pv /\
+  p_order px = p_order pv /\ p_transitions px = p_transitions pv /\
+  map (fun e => (fst (fst e), snd e)) (p_mfv px) = p_mfv pv /\ p_histogram px = p_histogram pv.
+Proof. exact profile_x_fields. Qed.
+Print Assumptions C15_cells_profile_of_values.
+
+(* the extremes are the least / greatest VALUE: for instants the earliest / latest UTC instant,
+   whatever offsets the datetimes carry *)
+Theorem C15_cells_extremes :
+  forall E scale unit hashF (np_hist : list Z -> list (E * Z)) wo c,
+  match p_minimum (profile_x scale unit hashF np_hist wo c) with
+  | None => forall o, In o c -> o = None
+  | Some z => exists m, In (Some m) c /\ (forall y, In (Some y) c -> xvalue unit m <= xvalue unit y) /\
+                        z = Z.quot (xvalue unit m) scale
+  end /\
+  match p_maximum (profile_x scale unit hashF np_hist wo c) with
+  | None => forall o, In o c -> o = None
+  | Some z => exists m, In (Some m) c /\ (forall y, In (Some y) c -> xvalue unit y <= xvalue unit m) /\
+                        z = Z.quot (xvalue unit m) scale
+  end.
+Proof.
+  intros E scale unit hashF np_hist wo c.
+  split; [exact (profile_x_minimum E scale unit hashF np_hist wo c)|exact (profile_x_maximum E scale unit hashF np_hist wo c)].
+Qed.
+Print Assumptions C15_cells_extremes.
+
+(* the distinct count is a count of VALUES: equal values that print differently (0.0 and -0.0, the
+   same instant written with two offsets) are one, whatever the hash function does with the forms *)
+Theorem C15_distinct_exact_cells :
+  forall E scale unit hashF (np_hist : list Z -> list (E * Z)) wo c,
+  let vals := nonnull (xvalues unit c) in
+  (length (distinct Z.eqb vals) < KVM_SIZE)%nat ->
+  estimate_cardinality (profile_x scale unit hashF np_hist wo c) = Some (zlen (distinct Z.eqb vals)).
+Proof. exact profile_x_estimate. Qed.
+Print Assumptions C15_distinct_exact_cells.
+
+Theorem C15_additive_cells :
+  forall E scale unit hashF (np_hist : list Z -> list (E * Z)), 0 < scale -> forall hist_merge wo c1 c2,
+  quad (add zn_eqb E hist_merge (profile_x scale unit hashF np_hist wo c1) (profile_x scale unit hashF np_hist wo c2)) =
+  quad (profile_x scale unit hashF np_hist wo (c1 ++ c2)).
+Proof. exact profile_x_additive. Qed.
+Print Assumptions C15_additive_cells.
+
+(* 23:30 at -08:00, 12:00 UTC, 02:00:00.5 at +05:30 (seconds of 1970-01-02 for brevity): the instants
+   are 113400, 43200, 70200; and [0.0; -0.0; 1.5] has two distinct values although the hash
+   function tells the zeros apart *)
+Example C15_example_cells :
+  let us := 1000000 in
+  let c := [Some (84600 * us, -28800 * us, 0%N); None; Some (43200 * us, 0, 0%N); Some (90000 * us + 500000, 19800 * us, 0%N)] in
+  let p := profile_x 1 us (fun k => Z.to_N (fst k)) (fun d => [(0%N, zlen d)]) false c in
+  quad p = (4, 1, Some 43200, Some 113400) /\ map fst (p_mfv p) = [(113400, 0%N); (43200, 0%N); (70200, 0%N)] /\
+  let z := [Some (0, 0, 0%N); Some (0, 0, 1%N); Some (1500000, 0, 0%N)] in
+  let q := profile_x 1000000 1 (fun k => (Z.to_N (fst k) + snd k)%N) (fun d => [(0%N, zlen d)]) true z in
+  estimate_cardinality q = Some 2 /\ p_kmv q = [0%N; 1500000%N] /\ p_mfv q = [((0, 0%N), 2); ((1500000, 0%N), 1)].
+Proof. vm_compute. repeat split. Qed.
 
 (* ---------- non-vacuity ---------- *)
 (* the premises are satisfiable: the regenerated constants are positive, Z and text are total
